@@ -19,6 +19,8 @@ for name in names:
     try:
         demo = subprocess.run(["/venv/bin/python", os.path.join(d, "demo.py")], env=dict(os.environ, PYTHONPATH="/repo"), capture_output=True).returncode
         row = dict(property=prop, demo_fails_with_patch=demo != 0, checks={})
+        if demo == 0:
+            row["status"] = "no longer manifests on /repo HEAD (its own demo passes with the patch applied)"
         for c in [prop] + ALSO.get(name, []):
             p = subprocess.run(["./check", c, "--tier", "quick"], cwd=V, capture_output=True, text=True)
             viol = [l for l in p.stdout.splitlines() if l.startswith("VIOLATION")]
